@@ -483,6 +483,21 @@ def run(ctx):
         meta.append(('liouville_representation (d=13, closed-form path) vs model', 'c15-corr-d13', inp))
         tag('closed-form/d13')
         evaluations += 1
+    # the index formulas of Basis.ggm / ggm_expand for more dimensions (implementation only):
+    # closed-form coefficients vs the generic tensordot, and vs the coefficients the basis was built from
+    for d in (list(range(2, 21)) if ctx.thorough else [2, 3, 5, 6, 7, 12, 13, 14, 17]):
+        g = ff.Basis.ggm(d)
+        M = r.standard_normal((2, d, d)) + 1j * r.standard_normal((2, d, d))
+        M = M + M.conj().transpose(0, 2, 1)
+        c1 = fb.ggm_expand(M, hermitian=True)
+        c2 = fb.expand(M, g, hermitian=True)
+        rec = np.einsum('tk,kab->tab', c1, nd(g))
+        inp = dict(case='ggm-dims', d=d, M=M)
+        if np.abs(c1 - c2).max() > 1e-10 or np.abs(rec - M).max() > 1e-10:
+            failures.append(fail('prop', 'ggm_expand-dims', 'c15-ggm-expand', 'ggm_expand != expand / does not reconstruct M '
+                                 'in Basis.ggm(%d): %.3g' % (d, max(np.abs(c1 - c2).max(), np.abs(rec - M).max())), inp))
+        tag('ggm-expand/d%d' % d)
+        evaluations += 1
     # ---- (B, C) Choi matrix and verdicts
     for i in range(nC):
         mcls = MCLS[i % len(MCLS)]
@@ -529,7 +544,7 @@ def run(ctx):
     cps = so.liouville_is_CP(Ss, b)
     if list(map(bool, cps)) != [True, False, True]:
         failures.append(fail('prop', 'CP verdict (stack)', 'c15-verdict-wrong', 'stacked liouville_is_CP gives %s' % list(cps),
-                             dict(case='stack-verdict')))
+                             dict(case='stack-verdict', Ss=Ss)))
     evaluations += 1
     tag('map/stack-verdict')
     # ---- (D) cached total_propagator_liouville of pulses
@@ -620,6 +635,15 @@ def replay(ctx, rep):
         r.bit_generator.state = st
         bad, _, _ = pulse_case(r, inp['which'])
         return (not bad), ('replay reproduces: %s' % bad if bad else 'replay: predicates hold on this input')
+    if case == 'stack-verdict':
+        cps = so.liouville_is_CP(_arr(inp['Ss']).real, ff.Basis.pauli(1))
+        ok = list(map(bool, cps)) == [True, False, True]
+        return ok, 'replay: stacked liouville_is_CP on (unitary, transposition, mixture) gives %s' % list(map(bool, cps))
+    if case == 'ggm-dims':
+        M = _arr(inp['M'])
+        g = ff.Basis.ggm(M.shape[-1])
+        err = np.abs(fb.ggm_expand(M, hermitian=True) - fb.expand(M, g, hermitian=True)).max()
+        return err <= 1e-10, 'replay: ggm_expand vs expand error %.3g' % err
     if case in ('d13', 'closed'):
         U = _arr(inp['U'])
         d = U.shape[0]
